@@ -239,6 +239,14 @@ Definition p_margin_block (m : dy) (b : ckind * list dy) : bool :=
   | KNN => forallb (fun v => dleb m v) (snd b)
   | KSOC => let t := dsub (dhd (snd b)) m in dleb d0 t && dleb (dsumsq (tl (snd b))) (dmul t t)
   end.
+(** strictly inside, exactly: every NN component > 0; SOC z0 > 0 and z0² > ‖z1‖² *)
+Definition p_strict_block (b : ckind * list dy) : bool :=
+  match fst b with
+  | KZero => true
+  | KNN => forallb (fun v => dltb d0 v) (snd b)
+  | KSOC => dltb d0 (dhd (snd b)) && dltb (dsumsq (tl (snd b))) (dmul (dhd (snd b)) (dhd (snd b)))
+  end.
+Definition p_shift_strict (out : list (ckind * list dy)) : N := ofb (forallb p_strict_block out).
 Definition p_shift (m : dy) (out : list (ckind * list dy)) : N := ofb (forallb (p_margin_block m) out).
 
 (** ** C13 property checks *)
